@@ -187,6 +187,51 @@ WHAT.update({
 })
 
 
+# fourth wave: as the third, with the earlier six changes per property listed as already taken
+WHAT.update({
+ "W4C01_A": ("C01", "MassActionPropensity.num_species declared unsigned (order 0: volume exponent -1 wraps)", "the general mass-action class at order 0 (constructed directly, or species string ' '), a volume mode, V != 1"),
+ "W4C01_B": ("C01", "safe interface's deterministic loop uses the stochastic copy-number gate (state < amount -> rate 0)", "safe interface, deterministic mode, a concentration below one firing's worth"),
+ "W4C02_A": ("C02", "GeneralPropensity gains stochastic(-volume) overrides; the volume one passes (time, volume) in the wrong order", "a general rate mentioning volume or t, evaluated through the stochastic+volume entry point"),
+ "W4C02_B": ("C02", "local sympy clash table without E (a species / parameter named E is read as Euler's number)", "the identifier E"),
+ "W4C03_A": ("C03", "_create_stochiometric_matrices reads the parallel reaction_updates lists (stale entry after a refused create_reaction)", "a refused create_reaction call, then further reactions"),
+ "W4C03_B": ("C03", "check_parameters lets the last parameter decide whether a value is missing", "a valueless parameter that is not the last one registered"),
+ "W4C04_A": ("C04", "DeterministicSimulator.set_tolerance signature reordered in the .pxd only (atol / rtol exchanged)", "tolerances given through py_set_tolerance with atol != rtol"),
+ "W4C04_B": ("C04", "Model.set_species rebinds species_values (astype copy); built interfaces keep the old array", "interface built, Model.set_species, simulate through that interface"),
+ "W4C05_A": ("C05", "SSASimulator starts its clock at the first grid point instead of the interface's initial time", "a grid that starts after time 0"),
+ "W4C05_B": ("C05", "SSASimulator caches the net stoichiometry keyed on (species, reactions) counts", "one simulator object used for two systems of equal dimensions"),
+ "W4C06_A": ("C06", "SSASimulator adds the delayed stoichiometry into the model's own matrix in place", "a model with a delayed part simulated twice with the plain simulator"),
+ "W4C06_B": ("C06", "safe interface's stochastic-volume routine tests state <= 0 instead of state < required copies", "safe + volume simulator, a reaction consuming >= 2 copies, a non-mass-action rate"),
+ "W4C07_A": ("C07", "ModelCSimInterface loses its copying set_initial_state (the caller's array is kept)", "a pre-built interface given its state as an integer array or as a buffer changed afterwards"),
+ "W4C07_B": ("C07", "VolumeSSASimulator merges rule_step into move_to_queued_time (dt rules not applied at the first row)", "a rule with frequency dt, stochastic, no delay, a volume"),
+ "W4C08_A": ("C08", "Model._initialize sets initialized before the parameter / species checks", "a refused initialisation, the value supplied afterwards, no structural edit in between"),
+ "W4C08_B": ("C08", "seed_random takes a 32-bit seed (a seed whose low 32 bits are zero means 'from the clock')", "a seed that is a multiple of 2**32, two runs in different seconds"),
+ "W4C09_A": ("C09", "create_rule no longer defaults an ODE rule's frequency to dt (it runs at every event)", "an ODE rule declared without a frequency, reactions firing between grid points"),
+ "W4C09_B": ("C09", "safe interface's count check resets negative species to 0 (after the rules, before the row is recorded)", "safe mode, a repeated rule whose value is negative"),
+ "W4C10_A": ("C10", "Model._create_vectors no longer clears c_delays", "a model initialised, then given a delayed reaction, then simulated with delay"),
+ "W4C10_B": ("C10", "GaussianDelay.get_delay returns |X| (the atom at zero delay disappears)", "a gaussian delay whose standard deviation is comparable to its mean"),
+ "W4C11_A": ("C11", "an assignment rule that targets a parameter is evaluated without the volume", "a parameter-target rule reading 'volume', V != 1"),
+ "W4C11_B": ("C11", "StochasticTimeThresholdVolume caches exp(g*dt) - 1 of the first dt it sees", "one volume object used on grids with different steps"),
+ "W4C12_A": ("C12", "add_rule unsets the value of a parameter that an assignment rule targets", "a parameter-target assignment rule, non-zero declared value"),
+ "W4C12_B": ("C12", "importer takes the un-annotated branch for general propensities and skips the delay block", "a general rate law with a delay"),
+ "W4C13_A": ("C13", "renaming a colliding local parameter is applied to the document's rules as well", "a global p, a reaction-local p, a rule that reads p"),
+ "W4C13_B": ("C13", "a rate rule whose formula starts with '-' becomes a degradation reaction with the remaining text as rate", "a rate rule '-a + b' / '-a - b'"),
+ "W4C14_A": ("C14", "kinetic laws written with KineticLaw.setFormula (L1 grammar: -A^2 = (-A)^2, left-associative ^)", "a general rate with a minus directly in front of a power, or chained powers"),
+ "W4C14_B": ("C14", "generate_sbml_model caches the document keyed on edit_count (value changes do not invalidate it)", "export, set_params, export again"),
+ "W4C15_A": ("C15", "extract_data transposes a trajectory only when its shape differs from (T, M)", ">= 2 trajectories, measured species count equal to the number of time points"),
+ "W4C15_B": ("C15", "the stochastic likelihood built for parameter conditions loses norm_order (falls back to 1)", "stochastic cost, parameter conditions, p != 1"),
+ "W4C16_A": ("C16", "PIDInterface stores params_to_estimate in the prior dictionary's key order", "prior dictionary written in another order than params_to_estimate, the vector API"),
+ "W4C16_B": ("C16", "gaussian prior clamps the density at machine epsilon before the logarithm", "a gaussian prior beyond ~8 standard deviations"),
+ "W4C17_A": ("C17", "Model.__getstate__ ships the name->index dictionaries sorted by name (get_parameter_dictionary pairs by position)", "parameter names whose creation order is not sorted order, a copy read through get_parameter_dictionary"),
+ "W4C17_B": ("C17", "LineageVolumeCellState.__init__: time or t0 / volume or v0", "a cell state at time exactly 0 with a non-zero birth time"),
+ "W4C18_A": ("C18", "compute_J perturbs one work array in place and does not undo the +-2h points", "fourth-order scheme, a rate with a mixed second derivative"),
+ "W4C18_B": ("C18", "parameter writes filtered with np.isclose (h is 'no change' for large parameters)", "sensitivity to a parameter >= 1000"),
+ "W4C19_A": ("C19", "perfect-volume branch keeps the noisy share p for the binomial species", "volume mode perfect, partition noise > 0, a binomial species"),
+ "W4C19_B": ("C19", "LineageSSASimulator keeps its cell / schnitz work lists between calls", "one simulator object used for two lineage simulations, a division in the first"),
+ "W4C20_A": ("C20", "ArrayDelayQueue.num_pending counter not maintained by binomial_partition (parts look empty)", "a partition of a non-empty queue, then reading the parts"),
+ "W4C20_B": ("C20", "get_next_reactions reads with num_reactions as the row stride", ">= 2 reactions, slot count != reaction count"),
+})
+
+
 def parse_log(path):
     confirm, runs = {}, {}
     for line in open(path, errors="replace"):
